@@ -885,7 +885,16 @@ impl TypeChecker {
                     .map(|branch| branch.condition.is_some())
                     .unwrap()
                 {
-                    // There isn't an else branch - so we can fall through.
+                    // There isn't an else branch - so we can fall through, but the branches can
+                    // still return.
+                    for (span, branch_ret, _) in tys.iter() {
+                        ret = self
+                            .unify_option(**span, ctx, *branch_ret, ret)
+                            .help_no_span(
+                                "The return from this block doesn't match the earlier branches"
+                                    .into(),
+                            )?;
+                    }
                     let void = self.push_type(Type::Void);
                     Some(void)
                 } else {
